@@ -179,6 +179,30 @@ pub fn gen_structure(out: &mut Out, rng: &mut Rng, thorough: bool) {
                 let data: Vec<u8> = (0..dc).map(|i| match (k + v) % 3 { 0 => rng.byte(), 1 => if rng.chance(1, 5) { rng.byte() } else { 0 }, _ => (i % 251) as u8 }).collect();
                 out.job(move || ustructure_line(e, v, &data));
             }
+            // buffers shaped like the encoder's output for a short payload in a large symbol: content, then the pad
+            // codewords 236 / 17 alternating to the end — so that several blocks hold nothing but padding —, with one
+            // or two later blocks that merely BEGIN like padding (4..8 pad codewords, then other content). Blocks that
+            // look alike for a few codewords must still get their own remainder.
+            let g = h::ecc_to_groups(ecl_of(e), version_of(v));
+            let nblocks = g[0].0 + g[1].0;
+            if nblocks >= 2 && (thorough || (v + e) % 2 == 0) {
+                let sizes: Vec<usize> = (0..g[0].0).map(|_| g[0].1).chain((0..g[1].0).map(|_| g[1].1)).collect();
+                for variant in 0..(if thorough { 4 } else { 2 }) {
+                    let content = rng.below(sizes[0].max(1));
+                    let mut data: Vec<u8> = (0..dc).map(|i| if i < content { rng.byte() } else if (i - content) % 2 == 0 { 236 } else { 17 }).collect();
+                    let mut off = 0usize;
+                    for (b, sz) in sizes.iter().enumerate() {
+                        if b >= 1 && b + 1 < nblocks && (rng.chance(1, 3) || (variant == 0 && b == 1)) {
+                            let keep = 4 + rng.below(5);
+                            for i in keep.min(*sz)..*sz {
+                                data[off + i] = if variant % 2 == 0 { rng.byte() } else { (i % 7) as u8 };
+                            }
+                        }
+                        off += sz;
+                    }
+                    out.job(move || ustructure_line(e, v, &data));
+                }
+            }
         }
     }
 }
